@@ -6,9 +6,11 @@ cd /repo || exit 9
 git diff --quiet || { echo "repo dirty"; exit 9; }
 git apply "$P" || { echo "patch does not apply"; exit 9; }
 cd /verif
-./check "$PROP" --tier "$TIER" > /tmp/seedtest.out 2> /tmp/seedtest.err
+cp evidence/$PROP.json /tmp/seedtest.evidence 2>/dev/null
+VERIF_REPLAY_DIR=/tmp/seedtest.replays ./check "$PROP" --tier "$TIER" > /tmp/seedtest.out 2> /tmp/seedtest.err
 RC=$?
 git -C /repo checkout -- .
+cp /tmp/seedtest.evidence evidence/$PROP.json 2>/dev/null
 echo "exit=$RC"
 grep -E "VIOLATION|KNOWN" /tmp/seedtest.out | head -5
 tail -2 /tmp/seedtest.err
